@@ -157,9 +157,9 @@ theorem eqGroups_sim {sh : Shared} {Ref : String → Prop} (diff : Differ) (hd :
             rw [hgb] at hb''; cases hb''; exact hon)
         -- the invariants do not look at the output
         have hI1 : GInv Ref (st.emitAll cs) := ⟨hI.anodup, hI.bnodup, hI.ane, hI.fresh, hI.aplain, hI.bplain,
-          hI.amemnd, hI.bmemnd, hI.c0, hI.c1, hI.c2, hI.c3, hI.bne⟩
+          hI.amemnd, hI.bmemnd, hI.c0, hI.c1, hI.c2, hI.c3, hI.bne, hI.c4, hI.c5⟩
         have hS1 : SimG sh Ref (st.emitAll cs) vg := ⟨hS.U, hS.K, hS.anames, hS.mems⟩
-        refine ⟨true, claimSt (st.emitAll cs) gai gbi ga.g.name, vg', rfl, ?_, hI1.claim gai gbi ga gb hga hgb hon,
+        refine ⟨true, claimSt (st.emitAll cs) gai gbi ga.g.name, vg', rfl, ?_, hI1.claim gai gbi ga gb hga hgb hon hrefgb,
           hS1.claim hI1 gai gbi ga gb hga hgb hn t6 (fun m => addrRefOk_congr sh t2 t6 m) hoth
             ⟨r', hl', hsm.symm.trans (SameMem.of_perm hperm)⟩, ?_, (fun h => by cases h)⟩
         · refine ⟨⟨cs, rfl, hf1, by rw [hf2]; exact hw, ?_⟩, hm1.trans hm2, t1, t2, t3, t4, t5, t6⟩
